@@ -3,6 +3,7 @@ import HdVerif.Generated.T9a
 import HdVerif.Generated.T9b
 import HdVerif.Generated.T9c
 import HdVerif.Generated.T9d
+import HdVerif.Generated.T9e
 import HdVerif.Generated.T10a
 import HdVerif.Generated.T10b
 import HdVerif.Generated.T10c
@@ -107,26 +108,32 @@ end Geom
 
 /-! ## per-axis index maps -/
 
-/-- What one axis of an operation does: output index `k` reads input index `first + step * k`;
-`size` is the new size computed by the library (what a `VolumeGeometry` gets), `alen` the length numpy gives
-the array along that axis (what a `Volume` reports as its shape). -/
+/-- What one axis of an operation does.
+*Array side* (numpy): output index `k` reads input index `afirst + astep * k`; `alen` is the length numpy gives the array
+along that axis (what a `Volume` reports as its shape).
+*Affine side* (the library's own arithmetic): the new origin is the old affine at index `first`, the column is scaled by
+`step`, and `size` is the new size the library computes (what a `VolumeGeometry` gets).
+That both sides agree is a theorem (`AxGood`), not a definition. -/
 structure AxMap where
   first : Int
   step : Int
   size : Int
   alen : Int
+  afirst : Int
+  astep : Int
 deriving DecidableEq, Repr, Inhabited
 
 /-- new geometry from three axis maps: column `d` scaled by `step`, origin moved to the voxel `first`
 (`_prepare_getitem_index`: `self._affine[:3, d] * step`, `map_indices_to_reference(origin_indices)`;
-`_prepare_pad_width` / `_translate_affine_matrix`: the same with `step = 1`, `first = -before`) -/
+`_prepare_pad_width` / `_translate_affine_matrix`: origin + direction @ origin_offset, columns kept) -/
 def Geom.remap (sz : AxMap → Int) (g : Geom) (m0 m1 m2 : AxMap) : Geom :=
   { c0 := V3.smul m0.step g.c0, c1 := V3.smul m1.step g.c1, c2 := V3.smul m2.step g.c2,
     t := g.pos ⟨m0.first, m1.first, m2.first⟩,
     n0 := sz m0, n1 := sz m1, n2 := sz m2 }
 
+/-- what numpy does to the array: output index `j` shows input index `afirst + astep * j` per axis -/
 def remapSrc (m0 m1 m2 : AxMap) (j : I3) : I3 :=
-  ⟨m0.first + m0.step * j.i0, m1.first + m1.step * j.i1, m2.first + m2.step * j.i2⟩
+  ⟨m0.afirst + m0.astep * j.i0, m1.afirst + m1.astep * j.i1, m2.afirst + m2.astep * j.i2⟩
 
 /-! ## CPython `slice.indices` and numpy's slice length (hand-written, validated against CPython) -/
 
@@ -180,11 +187,11 @@ def axisOfSlice (s : Option PySlice) (n : Int) : Except ErrKind AxMap :=
   match s with
   | none => do
     let (first, step, size) ← getitemAxisNone n
-    pure ⟨first, step, size, n⟩
+    pure ⟨first, step, size, n, 0, 1⟩   -- numpy: an axis without index item is kept as it is
   | some (a, b, c) => do
     let (f, l, st) ← sliceIndices a b c n
     let (first, step, size) ← getitemAxisItem f l st
-    pure ⟨first, step, size, sliceLen f l st⟩
+    pure ⟨first, step, size, sliceLen f l st, f, st⟩   -- numpy: `array[f:l:st]`
 
 /-- `_prepare_getitem_index` (index already in tuple form; a bare int or slice is the 1-tuple): the three axis maps -/
 def getitemMaps (g : Geom) (items : List Item) : Except ErrKind (AxMap × AxMap × AxMap) := do
@@ -290,17 +297,22 @@ def fullPadWidth (w : PadWidth) : Except ErrKind FullPad := do
   let full ← rawPadWidth w
   if fullNeg full then .error .value else pure full
 
-def padAxis (n before after : Int) : AxMap := ⟨-before, 1, n + before + after, n + before + after⟩
+/-- one padded axis: origin offset and new size as the library computes them (T9e); `numpy.pad` puts `before` new
+elements in front (output index `k` shows input index `k - before`) and returns `n + before + after` elements -/
+def padAxis (n before after : Int) : Except ErrKind AxMap := do
+  let o ← padOriginOffset before after
+  let sz ← padNewSize n before after
+  pure ⟨o, 1, sz, n + before + after, -before, 1⟩
 
-def padFullG (sz : AxMap → Int) (g : Geom) (full : FullPad) : GStep :=
-  let m0 := padAxis g.n0 full.1.1 full.1.2
-  let m1 := padAxis g.n1 full.2.1.1 full.2.1.2
-  let m2 := padAxis g.n2 full.2.2.1 full.2.2.2
-  (g.remap sz m0 m1 m2, remapSrc m0 m1 m2)
+def padFullG (sz : AxMap → Int) (g : Geom) (full : FullPad) : Except ErrKind GStep := do
+  let m0 ← padAxis g.n0 full.1.1 full.1.2
+  let m1 ← padAxis g.n1 full.2.1.1 full.2.1.2
+  let m2 ← padAxis g.n2 full.2.2.1 full.2.2.2
+  pure (g.remap sz m0 m1 m2, remapSrc m0 m1 m2)
 
 def padG (sz : AxMap → Int) (g : Geom) (w : PadWidth) : Except ErrKind GStep := do
   let full ← fullPadWidth w
-  pure (padFullG sz g full)
+  padFullG sz g full
 
 /-! ## pad / crop to a spatial shape (per-axis arithmetic: T9a, T9b, T9c) -/
 
